@@ -8,6 +8,12 @@ WT=/tmp/wt/verify_$$
 git -C /repo worktree add -q --detach "$WT" HEAD || exit 2
 trap 'git -C /repo worktree remove --force "$WT"' EXIT
 unset GOFLAGS; export GOPROXY=off GOSUMDB=off GOTOOLCHAIN=local
+# SEED_STATIK=1: the demo imports package app, whose emptied client/docs/statik/statik.go needs a stub overlay
+if [ "${SEED_STATIK:-0}" = 1 ]; then
+  mkdir -p /tmp/wt/statik_$$; echo "package statik" > /tmp/wt/statik_$$/statik.go
+  printf '{"Replace":{"%s/client/docs/statik/statik.go":"/tmp/wt/statik_%s/statik.go"}}' "$WT" "$$" > /tmp/wt/statik_$$/overlay.json
+  set -- -overlay /tmp/wt/statik_$$/overlay.json "$@"
+fi
 mkdir -p "$(dirname "$WT/$DEST")"; cp "$SEED/demo_test.go" "$WT/$DEST"
 echo "--- demo on unpatched tree"
 (cd "$WT/$RUNDIR" && go test -vet=off -count=1 "$@" 2>&1 | tail -3); U=${PIPESTATUS[0]}
